@@ -61,7 +61,8 @@ def run_layout(job):
     # the config file itself: current_version must equal the announced version (black box, no spec operator needed)
     cfg_after = a.get(lay.cfg_format, b"").decode("utf-8", "replace")
     facts = dict(seed=seed, vp=lay.vp, old=lay.old_version, new=new, exit=exit_code, exc=exc, flags=lay.flags, locale_c=locale_c,
-                 cfg_has_new=(new is not None and ('current_version = "%s"' % new) in cfg_after),
+                 cfg_has_new=(new is not None and ('current_version = "%s"' % new) in cfg_after and (not lay.cfg_glob or ("# note: %s\n" % new) in cfg_after)),
+                 cfg_glob=lay.cfg_glob,
                  untouched_changed=[k for k in lay.unconfigured if before.get(k) != after.get(k)],
                  extra_files=sorted(set(a) - set(b)), n_files=len(lay.files),
                  shared_lines=sum(1 for occ in lay.occ.values() for ln in set(o[0] for o in occ) if len([o for o in occ if o[0] == ln]) > 1))
@@ -112,10 +113,10 @@ def run_legacy(job):
     evs = []
     if new and newpep and r2.new_version() == new:
         texts = [raw.replace("{version}", new).replace("{pep440_version}", newpep) for raw in raws]
-        evs.append(dict(ev="subst", old=glue.cp(content), new=glue.cp(after["doc.txt"][0].decode("utf-8")), ok=r.exit == 0, texts=[glue.cp(t) for t in texts],
+        evs.append(dict(ev="subst", old=glue.cp(content), new=glue.cp(after["doc.txt"][0].decode("utf-8", "replace")), ok=r.exit == 0, texts=[glue.cp(t) for t in texts],
                         occ=[dict(line=a + 1, start=b, end=c, pat=p) for a, b, c, p in occ], file="doc.txt", seed=seed, locale_c=False,
                         dbg="legacy layout seed=%s vp=%s %s -> %s raws=%s" % (seed, vp, old, new, raws)))
-    facts = dict(seed=seed, vp=vp, old=old, new=new, exit=r.exit, exc=r.exc, flags=flags, locale_c=False, cfg_has_new=(new is not None and ('current_version = "%s"' % new) in after.get("bumpver.toml", (b"",))[0].decode()),
+    facts = dict(seed=seed, vp=vp, old=old, new=new, exit=r.exit, exc=r.exc, flags=flags, locale_c=False, cfg_has_new=(new is not None and ('current_version = "%s"' % new) in after.get("bumpver.toml", (b"",))[0].decode("utf-8", "replace")),
                  untouched_changed=[k for k in ("NOTES.txt",) if before.get(k) != after.get(k)], extra_files=sorted(set(after) - set(before)), n_files=1, shared_lines=0)
     return evs, facts
 
